@@ -177,6 +177,8 @@ def aggregate(pid, meta, tier, seed, results, lost, t0, replay):
         else:
             new.append(v)
     # replay files for new violations (one per distinct key + a few more)
+    if not replay:
+        shutil.rmtree(os.path.join(VERIF, "replays", pid), ignore_errors=True)
     printed = []
     per_key = {}
     for v in new:
@@ -241,7 +243,7 @@ def aggregate(pid, meta, tier, seed, results, lost, t0, replay):
         print("  key=%s  %s" % (v["key"], str(v["what"])[:400]))
     if new and len(new) > len(printed):
         print("  (%d further violations with the same keys not written out)" % (len(new) - len(printed)))
-    for l in lost:
+    for l in lost[:2]:
         print("LOST shard=%d rc=%s\n%s" % (l["shard"], l["rc"], l["log_tail"]))
     print("%s tier=%s seed=%d cases=%d distinct_nontrivial=%d violations=%d known=%d inconclusive=%d wall=%.1fs" % (
         pid, tier, seed, evaluations, len(digests), len(new), sum(known_seen.values()),
